@@ -178,10 +178,10 @@ Definition lum_any (s : string) : option string := if String.eqb s "" then None 
 Lemma unknown_accepted_when_all_overridden :
   find_theme light_catalog dark_catalog 999 = None /\ lum_any "" = None /\
   single_theme_rulesets lum_any "h" 999 (Some all_red) <> None /\
-  theme_css lum_any "h" (Some 0%Z) (Some 999%Z) None (Some all_red) <> None.
+  single_theme_rulesets_fixed lum_any "h" 999 (Some all_red) = None.
 Proof.
   split; [vm_compute; reflexivity|]. split; [reflexivity|].
-  split; intro H; vm_compute in H; discriminate H.
+  split; [intro H; vm_compute in H; discriminate H | vm_compute; reflexivity].
 Qed.
 
 (* ---------- inline colours ---------- *)
